@@ -46,7 +46,8 @@ CONSTANTS Vals,      \* integers used for state functions
           Slopes2,   \* doubled BEP slopes
           Icpts,     \* BEP intercepts
           Variant,   \* "required" | "droprev" | "urev"
-          Kinds      \* subset of {"plain", "bep"}: which reactions Init enumerates
+          Kinds,     \* subset of {"plain", "bep"}: which reactions Init enumerates
+          MaxEdits   \* how many attribute edits a behaviour may contain (second-use histories)
 
 Dirs == {"fwd", "rev"}
 Max2(a, b) == IF a < b THEN b ELSE a
@@ -157,35 +158,61 @@ HandedOK == \A c \in HandedCfg :
                /\ (~c.ads => EaSource(c) \in {"given", "get_G_act"})
 
 \* ------------------------------------------------------------------ state machine
-VARIABLES rx, obs
-vars == <<rx, obs>>
+\* `flag` is what an implementation could cache at construction ("is the descriptor of the
+\* rev_delta family"); `edits` counts the attribute assignments made after construction.
+\* Required: every getter is a function of the CURRENT public attributes, i.e. an edited object
+\* equals a fresh object built from its current attribute values (EditedEqualsFresh).
+\* Variant "cachedflag" (seeded change C09-9) reads `flag` in _get_adjusted_slope.
+VARIABLES rx, obs, flag, edits
+vars == <<rx, obs, flag, edits>>
+
+\* implementation shape of _get_adjusted_slope: which family the descriptor belongs to is read
+\* from the descriptor itself (required) or from the flag cached at construction (variant)
+ImplIsRev(b) == IF Variant = "cachedflag" THEN flag ELSE IsRevDelta(b.desc)
+ImplEact2(b, dir) == (IF dir = (IF ImplIsRev(b) THEN "rev" ELSE "fwd") THEN b.a2 ELSE b.a2 - 2) * Desc(b)
+                     + 2 * b.icpt
 None == [fn |-> "none"]
 
 Init == /\ rx \in ((IF "plain" \in Kinds THEN PlainCfg ELSE {}) \cup (IF "bep" \in Kinds THEN BepCfg ELSE {}))
         /\ obs = None
+        /\ flag = (rx.kind = "bep" /\ IsRevDelta(rx.desc))
+        /\ edits = 0
 
 \* ChemkinReaction / SurfaceReaction .get_HoRT_act, .get_GoRT_act
 GetActDimless(dir) ==
    /\ rx.kind = "plain"
    /\ obs' = [fn |-> "act", dir |-> dir, val |-> ImplDimless(rx, dir = "rev")]
-   /\ UNCHANGED rx
+   /\ UNCHANGED <<rx, flag, edits>>
 \* .get_H_act, .get_G_act (units, T)
 GetActWithUnits(dir) ==
    /\ rx.kind = "plain"
    /\ obs' = [fn |-> "act", dir |-> dir, val |-> ImplWithUnits(rx, dir = "rev")]
-   /\ UNCHANGED rx
+   /\ UNCHANGED <<rx, flag, edits>>
 \* BEP.get_E_act(reaction, rev) and Reaction.get_H_act(rev) on the reaction that owns the BEP
 GetBepEact(dir) ==
    /\ rx.kind = "bep"
-   /\ obs' = [fn |-> "eact", dir |-> dir, val |-> Eact2(rx, dir), via |-> Via2(rx, dir)]
-   /\ UNCHANGED rx
+   /\ obs' = [fn |-> "eact", dir |-> dir, val |-> ImplEact2(rx, dir),
+              via |-> ImplEact2(rx, "fwd") + 2 * rx.Hr - 2 * (IF dir = "fwd" THEN rx.Hr ELSE rx.Hp)]
+   /\ UNCHANGED <<rx, flag, edits>>
 \* BEP.get_HoRT / BEP.get_UoRT minus the reactants' value
 GetBepOffsets ==
    /\ rx.kind = "bep"
    /\ obs' = [fn |-> "offsets", h |-> HTS2(rx) - 2 * rx.Hr, u |-> UTS2(rx) - 2 * (rx.Hr - rx.w)]
-   /\ UNCHANGED rx
+   /\ UNCHANGED <<rx, flag, edits>>
 
-Next == \/ \E dir \in Dirs : GetActDimless(dir) \/ GetActWithUnits(dir) \/ GetBepEact(dir)
+\* assignment to a public attribute of the BEP (descriptor, slope, intercept) or use of the same
+\* BEP with another reaction (its end-state values change); the cached flag is NOT refreshed
+Edit(attr, v) ==
+   /\ rx.kind = "bep" /\ edits < MaxEdits
+   /\ rx' = [rx EXCEPT ![attr] = v] /\ rx' # rx
+   /\ edits' = edits + 1 /\ obs' = None /\ UNCHANGED flag
+EditAny == \/ \E d \in Descriptors : Edit("desc", d)
+           \/ \E a \in Slopes2 : Edit("a2", a)
+           \/ \E c \in Icpts : Edit("icpt", c)
+           \/ \E h \in Vals : Edit("Hp", h)          \* another reaction
+
+Next == \/ EditAny
+        \/ \E dir \in Dirs : GetActDimless(dir) \/ GetActWithUnits(dir) \/ GetBepEact(dir)
         \/ GetBepOffsets
 Spec == Init /\ [][Next]_vars
 
@@ -202,5 +229,6 @@ BepDifference == (rx.kind = "bep" /\ IsDelta(rx.desc)) =>
                     Eact2(rx, "fwd") - Eact2(rx, "rev") = 2 * DeltaQ(rx, "fwd")
 BepViaReaction == (obs.fn = "eact" /\ ViaDemanded(rx.desc, obs.dir)) => obs.via = obs.val
 BepUandHSameBarrier == obs.fn = "offsets" => obs.u = obs.h
+EditedEqualsFresh == obs.fn = "eact" => obs.val = Eact2(rx, obs.dir)
 BepOffsetIsForwardBarrier == obs.fn = "offsets" => obs.h = Eact2(rx, "fwd")
 =============================================================================
